@@ -16,6 +16,7 @@ MODULES = {
     "c13": "c13",
     "part": "partition",
     "xref": "xref",
+    "numeq": "numeqob",
     "c03": "c03",
     "native": "nativeob",
     "lean": "leanob",
